@@ -132,6 +132,67 @@ func valuesToInterp(vs url.Values) value {
 	return out
 }
 
+// parseQueryMixed: url.ParseQuery for a query string whose bytes may be symbolic. Concrete
+// bytes keep their meaning ('&' and '=' delimit, everything else is data); symbolic bytes are
+// ASSUMED to be unreserved characters (letters and digits), so they never delimit or escape.
+func parseQueryMixed(q value) value {
+	if s, ok := q.(string); ok {
+		vs, _ := url.ParseQuery(s)
+		return valuesToInterp(vs)
+	}
+	ss, ok := q.(symStr)
+	if !ok {
+		panic(pathAbort{"unsupported: query string of an opaque kind"})
+	}
+	ss = ss.withConcreteLen()
+	cur.approx("symbolic bytes of a query string are assumed to be letters or digits")
+	out := map[value]value{}
+	var key, val []value
+	inVal := false
+	flush := func() {
+		if len(key) == 0 && len(val) == 0 && !inVal {
+			return
+		}
+		k := symStr{n: len(key), b: key}.norm()
+		ks, ok := k.(string)
+		if !ok {
+			panic(pathAbort{"unsupported: symbolic bytes in a query parameter NAME"})
+		}
+		var vv value = symStr{n: len(val), b: val}.norm()
+		l, _ := out[ks].([]value)
+		out[ks] = append(l, vv)
+		key, val, inVal = nil, nil, false
+	}
+	for _, b := range ss.b {
+		switch c := b.(type) {
+		case uint8:
+			switch {
+			case c == '&':
+				flush()
+				continue
+			case c == '=' && !inVal:
+				inVal = true
+				continue
+			case c == '%' || c == '+' || c == ';':
+				panic(pathAbort{"unsupported: escapes next to symbolic query bytes"})
+			}
+		case symI:
+			t := c.t
+			cur.assume(mkOr(
+				mkAnd("(bvuge "+t+" #x30)", "(bvule "+t+" #x39)"),
+				mkAnd("(bvuge "+t+" #x41)", "(bvule "+t+" #x5a)"),
+				mkAnd("(bvuge "+t+" #x61)", "(bvule "+t+" #x7a)")))
+		}
+		if inVal {
+			val = append(val, b)
+		} else {
+			key = append(key, b)
+		}
+	}
+	flush()
+	return out
+}
+
 func headerFromInterp(h value) http.Header {
 	out := http.Header{}
 	m, _ := h.(map[value]value)
@@ -182,8 +243,7 @@ func init() {
 	externals["(*net/url.URL).Query"] = func(fr *frame, a []value) value {
 		ut := fr.i.prog.ImportedPackage("net/url").Type("URL").Type()
 		u := (*a[0].(*value)).(structure)
-		q, _ := url.ParseQuery(strArg(u[fieldIndex(ut, "RawQuery")]))
-		return valuesToInterp(q)
+		return parseQueryMixed(u[fieldIndex(ut, "RawQuery")])
 	}
 	externals["(*net/http.Request).ParseForm"] = func(fr *frame, a []value) value {
 		rt := fr.i.prog.ImportedPackage("net/http").Type("Request").Type()
@@ -191,9 +251,37 @@ func init() {
 		r := (*a[0].(*value)).(structure)
 		method := strArg(r[fieldIndex(rt, "Method")])
 		raw := ""
+		var rawV value = ""
 		if up, ok := r[fieldIndex(rt, "URL")].(*value); ok && up != nil {
-			raw = strArg((*up).(structure)[fieldIndex(ut, "RawQuery")])
+			rawV = (*up).(structure)[fieldIndex(ut, "RawQuery")]
 		}
+		if bodyV, isSym := symbolicReader(r[fieldIndex(rt, "Body")]); isSym || !isConcreteString(rawV) {
+			// symbolic form data: POST/PUT/PATCH with application/x-www-form-urlencoded only
+			hdr := headerFromInterp(r[fieldIndex(rt, "Header")])
+			form := map[value]value{}
+			post := map[value]value{}
+			if (method == "POST" || method == "PUT" || method == "PATCH") && strings.HasPrefix(hdr.Get("Content-Type"), "application/x-www-form-urlencoded") {
+				var b value = ""
+				if isSym {
+					b = bodyV
+				} else if s, ok := readerString(r[fieldIndex(rt, "Body")]); ok {
+					b = s
+				}
+				post, _ = parseQueryMixed(b).(map[value]value)
+			}
+			for k, l := range post {
+				form[k] = append([]value{}, l.([]value)...)
+			}
+			qv, _ := parseQueryMixed(rawV).(map[value]value)
+			for k, l := range qv {
+				old, _ := form[k].([]value)
+				form[k] = append(old, l.([]value)...)
+			}
+			r[fieldIndex(rt, "Form")] = form
+			r[fieldIndex(rt, "PostForm")] = post
+			return iface{}
+		}
+		raw = strArg(rawV)
 		body, hasBody := readerString(r[fieldIndex(rt, "Body")])
 		nr, err := http.NewRequest(method, "http://x/", strings.NewReader(body))
 		if err != nil {
@@ -229,4 +317,27 @@ func init() {
 		return call(fr.i, fr, 0, a[1], nil)
 	}
 	_ = ssa.NaiveForm
+}
+
+func isConcreteString(v value) bool { _, ok := v.(string); return ok }
+
+// symbolicReader: a *strings.Reader over a symbolic string
+func symbolicReader(v value) (value, bool) {
+	it, ok := v.(iface)
+	if !ok || it.t == nil {
+		return nil, false
+	}
+	name := it.t.String()
+	if strings.HasPrefix(name, "io.nopCloser") {
+		if st, ok := it.v.(structure); ok && len(st) == 1 {
+			return symbolicReader(st[0])
+		}
+	}
+	if name == "*strings.Reader" {
+		st := (*it.v.(*value)).(structure)
+		if ss, ok := st[0].(symStr); ok {
+			return ss, true
+		}
+	}
+	return nil, false
 }
